@@ -4,7 +4,7 @@ Correspondence: implementation vs the Coq models cholU / luU / qrU (base factors
 takes them).  Model-free predicates evaluated with exact rational series arithmetic on the implementation output: the defining
 equations of every factorization (QR reduced/full square/tall/wide, Cholesky, LU, eigh distinct and exactly repeated eigenvalues
 with splitting at a chosen order, eig (D<=2), svd), triangular structure, ordering, and the base-point factors against NumPy/SciPy."""
-import json
+import json, itertools
 from fractions import Fraction
 import numpy, scipy.linalg
 import lib, exact
@@ -13,12 +13,23 @@ from exact import PS, Cx
 from c07 import dy, mxlit, serlit, obj_mats, ps_residual, scale_of
 
 PID = 'C08'
-IMPORTS = 'QcField Sums Series Matrix'
+IMPORTS = 'QcField Sums Series Matrix QRTall'
 DEFS = """
 Definition mxs_close (tol : Qc) (n m : nat) (a b : seq (mx K)) : bool :=
   (size a == size b) && all (fun ab => Qc_allclose tol (flatten (mkmx n m (mxget ab.1))) (flatten (mkmx n m (mxget ab.2)))) (zip a b).
 """
 F = Fraction
+
+
+
+_LAYOUTS = itertools.cycle(['C', 'C', 'F', 'T', 'C', 'T'])
+
+
+def mkU(a):
+    """UTPM over a copy of `a` in a memory layout that cycles through C order, Fortran order and transposed trailing axes: the kernels
+    must not depend on the coefficient array being C-contiguous"""
+    import algopy
+    return algopy.UTPM(lib.relayout(numpy.array(a, copy=True), next(_LAYOUTS)))
 
 
 def rand_orth(rng, n):
@@ -81,7 +92,7 @@ def check_eigh(ap, rep, viol, Ad, meta, spec, split):
     UTPM = ap.UTPM
     D, P, n = Ad.shape[0], Ad.shape[1], Ad.shape[2]
     try:
-        l, Q = ap.eigh(UTPM(Ad.copy()))
+        l, Q = ap.eigh(mkU(Ad))
         ld, Qd = numpy.asarray(l.data), numpy.asarray(Q.data)
         Ao, Qo = obj_mats(Ad), obj_mats(Qd)
         lo = obj_mats(ld)
@@ -135,6 +146,13 @@ def main(tier, seed):
         a = numpy.zeros((D, P, n, m))
         for idx in numpy.ndindex(*a.shape):
             a[idx] = dy(rngl)
+        if rngl.random() < 0.3:
+            # whole higher coefficients that vanish in a direction (A(t) = A_0 + A_2 t^2): kernels that shortcut on "unperturbed" input
+            for p_ in range(P):
+                for d_ in range(1, D):
+                    if rngl.random() < 0.5:
+                        a[d_, p_] = 0
+            rep.count('zero coefficient blocks', True)
         return a
 
     for _ in range(N):
@@ -151,10 +169,13 @@ def main(tier, seed):
                 for i in range(min(M_, N_)):
                     R0[i, i] = rng.choice([-2, -1.5, 1, 1.5, 2, 3])
                 Ad[0, p] = Q0 @ R0
+            if rng.random() < 0.25:
+                Ad = Ad * 2.0 ** -30          # the same problem at a tiny scale (exact scaling): rank decisions must not use absolute thresholds near 1e-8
+                rep.count('tiny scale', 'qr')
             meta = dict(op='qr', shape=shape_kind, M=M_, N=N_, D=D, P=P, A=Ad.tolist())
             case('qr:' + shape_kind, meta, D >= 2 and n >= 2)
             try:
-                Q, R = algopy.qr(UTPM(Ad.copy()))
+                Q, R = algopy.qr(mkU(Ad))
                 Qd, Rd = numpy.asarray(Q.data), numpy.asarray(R.data)
                 K_ = min(M_, N_)
                 if Qd.shape != (D, P, M_, K_) or Rd.shape != (D, P, K_, N_):
@@ -179,6 +200,13 @@ def main(tier, seed):
                         terms.append('(mxs_close %s %d %d [seq qr.1 | qr <- %s] %s && mxs_close %s %d %d [seq qr.2 | qr <- %s] %s)'
                                      % (qlit(F(tol * sc)), n, n, QR, serlit(Qd, p), qlit(F(tol * sc)), n, n, QR, serlit(Rd, p)))
                         metas.append(dict(model='qrU', n=n, D=D, direction=p))
+                    if shape_kind == 'tall' and N_ <= 3 and M_ <= 5 and D <= 4:      # exact rational evaluation grows fast with m n D; larger cases: predicates above
+                        # the proved tall-QR model (C08_qrtM_spec / C08_qrtU_refines), base factors as numpy.linalg.qr / inv return them
+                        rinv = numpy.linalg.inv(r0)
+                        QR = '(qrtU %d %d %s %s %s %s)' % (M_, N_, serlit(Ad, p), mxlit(q0), mxlit(r0), mxlit(rinv))
+                        terms.append('(mxs_close %s %d %d [seq qr.1 | qr <- %s] %s && mxs_close %s %d %d [seq qr.2 | qr <- %s] %s)'
+                                     % (qlit(F(tol * sc)), M_, N_, QR, serlit(Qd, p), qlit(F(tol * sc)), N_, N_, QR, serlit(Rd, p)))
+                        metas.append(dict(model='qrtU', n=N_, D=D, direction=p))
             except Exception as e:
                 viol('qr:%s:exception:%s' % (shape_kind, type(e).__name__), 'qr (%s %dx%d) raises %r' % (shape_kind, M_, N_, e), meta, exc=repr(e))
         # ================================================================= qr_full
@@ -193,7 +221,7 @@ def main(tier, seed):
         meta = dict(op='qr_full', M=M_, N=n, D=D, P=P, A=Ad.tolist())
         case('qr_full', meta, D >= 2 and n >= 2)
         try:
-            Q, R = algopy.qr_full(UTPM(Ad.copy()))
+            Q, R = algopy.qr_full(mkU(Ad))
             Qd, Rd = numpy.asarray(Q.data), numpy.asarray(R.data)
             Ao, Qo, Ro = obj_mats(Ad), obj_mats(Qd), obj_mats(Rd)
             r1 = max(ps_residual([numpy.dot(Qo[p], Ro[p]) - Ao[p]]) for p in range(P))
@@ -214,7 +242,7 @@ def main(tier, seed):
         meta = dict(op='cholesky', n=n, D=D, P=P, A=Ad.tolist())
         case('cholesky', meta, D >= 2 and n >= 2)
         try:
-            Ld = numpy.asarray(algopy.cholesky(UTPM(Ad.copy())).data)
+            Ld = numpy.asarray(algopy.cholesky(mkU(Ad)).data)
             Ao, Lo = obj_mats(Ad), obj_mats(Ld)
             r1 = max(ps_residual([numpy.dot(Lo[p], Lo[p].T) - Ao[p]]) for p in range(P))
             r3 = struct_residual(Ld, numpy.triu(numpy.ones((n, n), dtype=bool), 1))
@@ -239,7 +267,7 @@ def main(tier, seed):
         meta = dict(op='lu', n=n, D=D, P=P, A=Ad.tolist())
         case('lu', meta, D >= 2 and n >= 2)
         try:
-            W, L, U_ = algopy.lu(UTPM(Ad.copy()))
+            W, L, U_ = algopy.lu(mkU(Ad))
             Wd, Ld, Ud = numpy.asarray(W.data), numpy.asarray(L.data), numpy.asarray(U_.data)
             Ao, Lo, Uo = obj_mats(Ad), obj_mats(Ld), obj_mats(Ud)
             ok = True
@@ -301,7 +329,7 @@ def main(tier, seed):
             meta = dict(op='eigh', spectrum=spec, split_at=split_at, n=n, D=D, P=P, A=Ad.tolist())
             case('eigh:' + spec, meta, D >= 2)
             try:
-                l, Q = algopy.eigh(UTPM(Ad.copy()))
+                l, Q = algopy.eigh(mkU(Ad))
                 ld, Qd = numpy.asarray(l.data), numpy.asarray(Q.data)
                 Ao, Qo = obj_mats(Ad), obj_mats(Qd)
                 lo = obj_mats(ld)
@@ -334,7 +362,7 @@ def main(tier, seed):
         meta = dict(op='eig', n=n, D=D2, P=P, A=Ad.tolist())
         case('eig', meta, D2 >= 2)
         try:
-            l, Q = algopy.eig(UTPM(Ad.copy()))
+            l, Q = algopy.eig(mkU(Ad))
             ld, Qd = numpy.asarray(l.data), numpy.asarray(Q.data)
             bad = None
             for p in range(P):
@@ -364,7 +392,7 @@ def main(tier, seed):
         meta = dict(op='svd', shape=shape_kind, M=M_, N=N_, D=Ds, P=P, A=Ad.tolist())
         case('svd:' + shape_kind, meta, Ds >= 2 and n >= 2)
         try:
-            U_, s, V = algopy.svd(UTPM(Ad.copy()))
+            U_, s, V = algopy.svd(mkU(Ad))
             Ud, sd, Vd = numpy.asarray(U_.data), numpy.asarray(s.data), numpy.asarray(V.data)
             Ao, Uo, Vo, so = obj_mats(Ad), obj_mats(Ud), obj_mats(Vd), obj_mats(sd)
             K_ = min(M_, N_)
@@ -387,7 +415,7 @@ def main(tier, seed):
         except Exception as e:
             viol('svd:%s:exception:%s' % (shape_kind, type(e).__name__), 'svd (%s %dx%d, D=%d) raises %r' % (shape_kind, M_, N_, Ds, e), meta, exc=repr(e))
 
-    verdicts, logs = lib.eval_bool_cases(PID, IMPORTS, DEFS, terms, per_file=12)
+    verdicts, logs = lib.eval_bool_cases(PID, IMPORTS, DEFS, terms, per_file=6)
     bad = 0
     for m, v, t in zip(metas, verdicts, terms):
         rep.count('coq:model', m['model'])
